@@ -13,6 +13,9 @@ From Texel Require Import Chess.Types Chess.Position Chess.PositionSpec Chess.Po
 Import ListNotations.
 Local Open Scope N_scope.
 
+Lemma revMoveList_noep q : epSquare q = (-1)%Z -> revMoveList q = genMovesNoUndoInfo q.
+Proof. intro E. unfold revMoveList. cbv zeta. rewrite E. reflexivity. Qed.
+
 (** * the raw reverse moves of the piece blocks *)
 Section RawShape.
 Variable q : position.
@@ -124,7 +127,7 @@ Definition RawPiece (m : move) : Prop :=
   (PieceUn WROOK aR m /\ N.testbit (revRookSquares wm q) (mto m) = true) \/
   PieceUn WBISHOP aB m \/ PieceUn WKNIGHT aN m \/
   (PieceUn WKING aK m /\ kingGuard (mto m) = true) \/
-  (exists k0 kSq, m = mkMove k0 kSq EMPTY /\ (k0 = E1 \/ k0 = E8) /\ (kSq = k0 + 2 \/ kSq + 2 = k0)).
+  (exists k0 kSq, m = mkMove k0 kSq EMPTY /\ (k0 = E1 \/ k0 = E8) /\ (kSq = k0 + 2 \/ kSq + 2 = k0) /\ isKingPiece (getPiece q kSq) = true).
 
 Lemma aQ_lt sq : sq < 64 -> aQ sq < 2 ^ 64.
 Proof.
@@ -185,7 +188,7 @@ Qed.
 
 Lemma kingBlock_shape l m : In m (revKingBlock wm q l) ->
   In m l \/ (PieceUn WKING aK m /\ kingGuard (mto m) = true) \/
-  (exists k0 kSq, m = mkMove k0 kSq EMPTY /\ (k0 = E1 \/ k0 = E8) /\ (kSq = k0 + 2 \/ kSq + 2 = k0)).
+  (exists k0 kSq, m = mkMove k0 kSq EMPTY /\ (k0 = E1 \/ k0 = E8) /\ (kSq = k0 + 2 \/ kSq + 2 = k0) /\ isKingPiece (getPiece q kSq) = true).
 Proof.
   intro H. unfold revKingBlock in H. cbv zeta in H.
   destruct (kingSq_spec_B q wm BO HKex) as (Hk64 & Hkp).
@@ -193,10 +196,12 @@ Proof.
   destruct (negb (((ks =? E1) && (a1Castle q || h1Castle q)) || ((ks =? E8) && (a8Castle q || h8Castle q)))) eqn:G; [|left; exact H].
   apply castleClause_shape in H; [|destruct wm; cbv; reflexivity].
   destruct H as [H|(Hm & Hs)].
-  2:{ right. right. exists (if wm then E1 else E8), (if wm then C1 else C8). split; [exact Hm|]. destruct wm; cbv; auto. }
+  2:{ right. right. exists (if wm then E1 else E8), (if wm then C1 else C8). split; [exact Hm|].
+      split; [destruct wm; auto|]. split; [destruct wm; cbv; auto|]. rewrite <- Hs, Hkp. destruct wm; reflexivity. }
   apply castleClause_shape in H; [|destruct wm; cbv; reflexivity].
   destruct H as [H|(Hm & Hs)].
-  2:{ right. right. exists (if wm then E1 else E8), (if wm then G1 else G8). split; [exact Hm|]. destruct wm; cbv; auto. }
+  2:{ right. right. exists (if wm then E1 else E8), (if wm then G1 else G8). split; [exact Hm|].
+      split; [destruct wm; auto|]. split; [destruct wm; cbv; auto|]. rewrite <- Hs, Hkp. destruct wm; reflexivity. }
   apply revAdd_In in H; [|apply ldiff_lt, kingAttacks_lt].
   destruct H as [H|(s0 & Hb & ->)]; [left; exact H|]. right. left.
   unfold andn in Hb. rewrite N.ldiff_spec in Hb. apply andb_true_iff in Hb. destruct Hb as (Hb1 & Hb2).
@@ -207,12 +212,18 @@ Proof.
   split; [|exact G]. unfold PieceUn. cbn [mfrom mto mpromote]. repeat split; auto.
 Qed.
 
+Lemma gen_eq : genMovesNoUndoInfo q =
+  revPromoBlock wm q (revPawnBlock wm q (revKingBlock wm q (revKnightBlock wm q (revBishopBlock wm q (revRookBlock wm q (revQueenBlock wm q [])))))).
+Proof. reflexivity. Qed.
+Lemma myPawn_isPawn : isPawnPiece (myPiece wm WPAWN) = true.
+Proof. generalize wm. intros []; reflexivity. Qed.
+
 Theorem raw_piece_shape m :
   In m (genMovesNoUndoInfo q) -> mpromote m = EMPTY -> isPawnPiece (getPiece q (mto m)) = false -> RawPiece m.
 Proof.
-  intros H Hpr Hnp. unfold genMovesNoUndoInfo in H. cbv zeta in H. fold wm in H.
+  intros H Hpr Hnp. rewrite gen_eq in H.
   apply promoBlock_shape in H. destruct H as [H|H]; [|contradiction].
-  apply pawnBlock_shape in H. destruct H as [H|H]; [|rewrite H in Hnp; destruct wm; discriminate].
+  apply pawnBlock_shape in H. destruct H as [H|H]; [|rewrite H, myPawn_isPawn in Hnp; discriminate].
   apply kingBlock_shape in H. destruct H as [H|[H|H]];
     [|right; right; right; right; left; exact H | right; right; right; right; right; exact H].
   apply knightBlock_shape in H. destruct H as [H|H]; [|right; right; right; left; exact H].
@@ -222,3 +233,472 @@ Proof.
 Qed.
 
 End RawShape.
+
+(** * the position restored by an un-move of a piece (no promotion, no pawn, no un-castling) *)
+Section Restored.
+Variable zk : zkeys.
+Hypothesis EKZ : emptyKeysZero zk.
+Variable q : position.
+Hypothesis Cq : Consistent zk q.
+Variable m : move.
+Variable ui : undoInfo.
+
+Let f := mfrom m.
+Let t := mto m.
+Let sqsQ := squares q.
+Let mp := nthP sqsQ t.
+Let prev := unMakeMove zk q m ui.
+
+Hypothesis Hf : f < 64.
+Hypothesis Ht : t < 64.
+Hypothesis Hft : f <> t.
+Hypothesis Hcap : u_captured ui < 13.
+Hypothesis Hpr : mpromote m = EMPTY.
+Hypothesis Hnp : isPawnPiece mp = false.
+Hypothesis Hnc : isKingPiece mp = true -> t <> f + 2 /\ t + 2 <> f.
+Hypothesis Hfe : nthP sqsQ f = EMPTY.
+
+Definition prevBoard : list piece := updN f mp (updN t (u_captured ui) sqsQ).
+
+Lemma lenQ : length sqsQ = 64%nat.
+Proof. destruct Cq. exact c_len. Qed.
+
+Lemma prev_St :
+  St zk 0 prevBoard
+     (negb (whiteMove q), u_halfMoveClock ui, (if whiteMove q then fullMoveCounter q - 1 else fullMoveCounter q)%Z,
+      u_castleMask ui, u_epSquare ui) prev.
+Proof.
+  unfold prev. rewrite unMakeMove_unfold.
+  pose proof (St_self zk q Cq) as S0. unfold scalars in S0.
+  destruct (um_restore zk m _ _ _ _ _ _ q ui S0 Hf Ht Hcap) as (E1' & S1). fold f t sqsQ in E1', S1.
+  rewrite Hpr in E1', S1. change (negb (EMPTY =? EMPTY)) with false in E1', S1. cbv iota in E1', S1. fold mp in E1', S1.
+  rewrite E1'.
+  destruct (St_scalars zk _ _ _ _ _ _ _ _ S1) as (Hw1 & _ & _ & _ & He1).
+  rewrite um_castle_none.
+  - rewrite um_ep_none; [exact S1|]. right. unfold isPawnPiece in Hnp. apply orb_false_iff in Hnp. destruct Hnp as (A & B).
+    apply N.eqb_neq in A, B. auto.
+  - case_eq (isKingPiece mp); intro Hk.
+    + right. destruct (Hnc Hk) as (A & B). fold f t. unfold sqPlus. split; lia.
+    + left. rewrite Hw1. unfold isKingPiece in Hk. apply orb_false_iff in Hk. destruct Hk as (A & B).
+      destruct (negb (whiteMove q)); assumption.
+Qed.
+
+Lemma prev_consistent : Consistent zk prev.
+Proof. apply prev_St. Qed.
+
+Lemma prev_abs : abs prev = mkSpos prevBoard (negb (whiteMove q)) (u_castleMask ui) (u_epSquare ui).
+Proof.
+  destruct prev_St as (_ & Hs & Hsc). unfold scalars in Hsc. inversion Hsc. unfold abs. rewrite Hs. reflexivity.
+Qed.
+
+(** making the move again: the board of Q *)
+Lemma prevBoard_f : nthP prevBoard f = mp.
+Proof. unfold prevBoard. apply nthP_updN_eq. rewrite length_updN, lenQ. lia. Qed.
+Lemma prevBoard_t : nthP prevBoard t = u_captured ui.
+Proof.
+  unfold prevBoard. rewrite nthP_updN_neq by exact Hft. apply nthP_updN_eq. rewrite lenQ. lia.
+Qed.
+
+Lemma remade_board : updN t mp (updN f EMPTY prevBoard) = sqsQ.
+Proof.
+  pose proof lenQ as Hl. apply list_ext_N; [unfold prevBoard; rewrite !length_updN; exact Hl | exact Hl|].
+  intros s Hs. unfold prevBoard. rewrite !nthP_updN by (rewrite ?length_updN, Hl; lia).
+  destruct (N.eqb_spec s t) as [->|]; [reflexivity|].
+  destruct (N.eqb_spec s f) as [->|]; [symmetry; exact Hfe | reflexivity].
+Qed.
+
+Lemma remade_abs :
+  makeA (abs prev) m =
+  mkSpos sqsQ (whiteMove q) (N.land (N.land (u_castleMask ui) (castleSqMask f)) (castleSqMask t)) (-1)%Z.
+Proof.
+  rewrite prev_abs. unfold makeA. cbn [sp_board sp_white sp_castle sp_ep]. fold f t.
+  rewrite negb_involutive. f_equal.
+  - unfold isCaptureBranch. fold f t. rewrite prevBoard_f, prevBoard_t, Hnp, orb_false_r.
+    destruct (negb (u_captured ui =? EMPTY)).
+    + unfold captureA, epBlockA. cbn [fst]. fold f t.
+      unfold isPawnPiece in Hnp. apply orb_false_iff in Hnp. destruct Hnp as (A & B). rewrite A, B. cbn [fst].
+      rewrite Hpr. change (negb (EMPTY =? EMPTY)) with false. cbv iota. apply remade_board.
+    + cbn [fst]. unfold quietA, castleBlockA. cbv zeta. fold f t. rewrite prevBoard_f.
+      case_eq (isKingPiece mp); intro Hk.
+      * destruct (Hnc Hk) as (A & B).
+        replace (Z.of_N t =? sqPlus f 2)%Z with false by (symmetry; apply Z.eqb_neq; unfold sqPlus; lia).
+        replace (Z.of_N t =? sqPlus f (-2))%Z with false by (symmetry; apply Z.eqb_neq; unfold sqPlus; lia).
+        rewrite prevBoard_f. apply remade_board.
+      * rewrite prevBoard_f. apply remade_board.
+  - unfold isCaptureBranch. fold f t. rewrite prevBoard_f, prevBoard_t, Hnp, orb_false_r.
+    destruct (negb (u_captured ui =? EMPTY)); [|reflexivity].
+    unfold captureA, epBlockA. cbn [snd]. fold f t.
+    unfold isPawnPiece in Hnp. apply orb_false_iff in Hnp. destruct Hnp as (A & B). rewrite A, B. reflexivity.
+Qed.
+
+End Restored.
+
+(** * the castle mask: un-making with any enumerated alternative and making again gives the mask of Q *)
+Section CastleBack.
+Variable q : position.
+Hypothesis Hwf : WF q.
+Variable m : move.
+Variable captured : piece.
+
+Let f := mfrom m.
+Let t := mto m.
+Let sqsQ := squares q.
+Let mp := nthP sqsQ t.
+Let wm := negb (whiteMove q).
+
+Hypothesis Hf : f < 64.
+Hypothesis Ht : t < 64.
+Hypothesis Hft : f <> t.
+Hypothesis Hfe : nthP sqsQ f = EMPTY.
+Hypothesis Hown : has_color wm mp = true.
+(* the moved piece is not a rook that still has its castling flag, nor a king that has one *)
+Hypothesis Hflag : forall i, i < 4 -> N.testbit (castleMask q) i = true -> t <> homeR i /\ t <> homeK i.
+Hypothesis Hnc : isKingPiece mp = true -> (getKingDistance f t <= 1)%Z.
+
+Lemma cmQ_lt16 : castleMask q < 16.
+Proof.
+  destruct (WF_parts q Hwf) as (_ & _ & _ & _ & Ha). destruct (accepted_parts _ Ha) as (_ & _ & _ & _ & _ & H & _). exact H.
+Qed.
+
+Lemma rights_q i : i < 4 -> N.testbit (castleMask q) i = true ->
+  nthP sqsQ (homeK i) = kingOf i /\ nthP sqsQ (homeR i) = rookOf i.
+Proof.
+  intros Hi Hb. destruct (WF_parts q Hwf) as (_ & _ & _ & _ & Ha).
+  destruct (accepted_parts _ Ha) as (_ & _ & _ & _ & _ & _ & H1 & H0 & H3 & H2).
+  unfold has_right in H0, H1, H2, H3. cbn [abs sp_castle sp_board] in H0, H1, H2, H3.
+  destruct (four_cases i Hi) as [-> | [-> | [-> | ->]]].
+  - destruct (H0 Hb) as (A & B). apply N.eqb_eq in A, B. split; [exact A | exact B].
+  - destruct (H1 Hb) as (A & B). apply N.eqb_eq in A, B. split; [exact A | exact B].
+  - destruct (H2 Hb) as (A & B). apply N.eqb_eq in A, B. split; [exact A | exact B].
+  - destruct (H3 Hb) as (A & B). apply N.eqb_eq in A, B. split; [exact A | exact B].
+Qed.
+
+Lemma base_is_cmQ : getBaseCastleMask q m mp = castleMask q.
+Proof.
+  unfold getBaseCastleMask. fold f t.
+  destruct ((mp =? WKING) || (mp =? BKING)) eqn:Hk; [|reflexivity].
+  replace (1 <? getKingDistance f t)%Z with false by (symmetry; apply Z.ltb_ge; apply Hnc; exact Hk). reflexivity.
+Qed.
+
+Lemma lenQ' : length sqsQ = 64%nat.
+Proof. apply (WF_parts q Hwf). Qed.
+
+(** the board rebuilt for the castle flags differs from Q only on from and to *)
+Lemma before_other s : s < 64 -> s <> f -> s <> t -> boardAt (castleBoardBefore q m mp captured) s = nthP sqsQ s.
+Proof.
+  intros Hs64 Hsf Hst. change (boardAt (castleBoardBefore q m mp captured) s) with (nthP (castleBoardBefore q m mp captured) s).
+  unfold castleBoardBefore. cbv zeta. fold f t sqsQ.
+  assert (K1 : (mp =? WKING) && (f =? E1) = true -> (t =? G1) = false /\ (t =? C1) = false).
+  { intro H. apply andb_true_iff in H. destruct H as (A & B). apply N.eqb_eq in A, B.
+    assert (Hk : isKingPiece mp = true) by (rewrite A; reflexivity). pose proof (Hnc Hk) as Hd. rewrite B in Hd.
+    split; apply N.eqb_neq; intro E; rewrite E in Hd; vm_compute in Hd; apply Hd; reflexivity. }
+  assert (K2 : (mp =? BKING) && (f =? E8) = true -> (t =? G8) = false /\ (t =? C8) = false).
+  { intro H. apply andb_true_iff in H. destruct H as (A & B). apply N.eqb_eq in A, B.
+    assert (Hk : isKingPiece mp = true) by (rewrite A; reflexivity). pose proof (Hnc Hk) as Hd. rewrite B in Hd.
+    split; apply N.eqb_neq; intro E; rewrite E in Hd; vm_compute in Hd; apply Hd; reflexivity. }
+  pose proof lenQ' as Hl.
+  destruct ((mp =? WKING) && (f =? E1)) eqn:C1'; [destruct (K1 eq_refl) as (-> & ->)|];
+  (destruct ((mp =? BKING) && (f =? E8)) eqn:C2'; [destruct (K2 eq_refl) as (-> & ->)|]);
+    rewrite !nthP_updN by (rewrite ?length_updN, Hl; lia);
+    (replace (s =? t) with false by (symmetry; apply N.eqb_neq; exact Hst));
+    (replace (s =? f) with false by (symmetry; apply N.eqb_neq; exact Hsf)); reflexivity.
+Qed.
+
+Theorem castle_back castle :
+  In castle (castleAlternatives (andn (getCastleAddMask q m mp captured) (getBaseCastleMask q m mp))) ->
+  N.land (N.land (N.lor (getBaseCastleMask q m mp) castle) (castleSqMask f)) (castleSqMask t) = castleMask q.
+Proof.
+  intro Hin. rewrite base_is_cmQ in *.
+  set (add := getCastleAddMask q m mp captured) in *.
+  assert (Hadd16 : andn add (castleMask q) < 16).
+  { apply lt16_of_bits. intros i Hi. unfold andn, add, getCastleAddMask, andn. cbv zeta.
+    rewrite !N.ldiff_spec, (bits16 _ i (maxCastleMask_lt _) Hi). reflexivity. }
+  pose proof (castleAlternatives_lt _ _ Hadd16 Hin) as Hc16.
+  apply (castleAlternatives_In _ _ Hadd16 Hc16) in Hin.
+  apply N.bits_inj. intro i. rewrite !N.land_spec, N.lor_spec.
+  destruct (N.lt_ge_cases i 4) as [Hi|Hi].
+  2:{ rewrite (bits16 _ i cmQ_lt16 Hi), (bits16 _ i Hc16 Hi). reflexivity. }
+  rewrite !castleSqMask_tbl by exact Hi.
+  destruct (N.testbit (castleMask q) i) eqn:Hq.
+  - (* a right of Q: neither from nor to is one of its home squares *)
+    destruct (rights_q i Hi Hq) as (HK & HR). destruct (Hflag i Hi Hq) as (T1 & T2).
+    assert (F1' : f <> homeR i) by (intro E; rewrite <- E, Hfe in HR; unfold rookOf in HR; destruct (i <? 2); discriminate).
+    assert (F2' : f <> homeK i) by (intro E; rewrite <- E, Hfe in HK; unfold kingOf in HK; destruct (i <? 2); discriminate).
+    replace (f =? homeR i) with false by (symmetry; apply N.eqb_neq; exact F1').
+    replace (f =? homeK i) with false by (symmetry; apply N.eqb_neq; exact F2').
+    replace (t =? homeR i) with false by (symmetry; apply N.eqb_neq; exact T1).
+    replace (t =? homeK i) with false by (symmetry; apply N.eqb_neq; exact T2). reflexivity.
+  - (* an additional flag is destroyed again by the move *)
+    cbn [orb]. destruct (N.testbit castle i) eqn:Hc; [|reflexivity]. cbn [andb].
+    assert (Ha : N.testbit (andn add (castleMask q)) i = true).
+    { assert (X : N.testbit (N.land castle (andn add (castleMask q))) i = true) by (rewrite Hin; exact Hc).
+      rewrite N.land_spec, Hc in X. exact X. }
+    unfold andn, add, getCastleAddMask, andn in Ha. cbv zeta in Ha. rewrite !N.ldiff_spec in Ha.
+    apply andb_true_iff in Ha. destruct Ha as (Ha & _). apply andb_true_iff in Ha. destruct Ha as (Hb & Hnq).
+    apply negb_true_iff in Hnq. rewrite !maxCastleMask_tbl in Hb, Hnq by exact Hi. fold sqsQ in Hnq.
+    destruct ((f =? homeR i) || (f =? homeK i)) eqn:Ef; [reflexivity|].
+    destruct ((t =? homeR i) || (t =? homeK i)) eqn:Et; [reflexivity|]. exfalso.
+    apply orb_false_iff in Ef, Et. destruct Ef as (E1' & E2'). destruct Et as (E3 & E4).
+    apply N.eqb_neq in E1', E2', E3, E4.
+    assert (HK64 : homeK i < 64) by (unfold homeK, E1, E8; destruct (i <? 2); lia).
+    assert (HR64 : homeR i < 64) by (unfold homeR, A1, H1, A8, H8; destruct (i =? 0), (i =? 1), (i =? 2); lia).
+    rewrite !before_other in Hb by auto. change (boardAt sqsQ) with (nthP sqsQ) in Hnq. congruence.
+Qed.
+
+End CastleBack.
+
+(** * Consistency of the reported un-moves of pieces *)
+Lemma rookSquares_flag q wm i : i < 4 ->
+  N.testbit (revRookSquares wm q) (homeR i) = true -> N.testbit (castleMask q) i = false.
+Proof.
+  intros Hi H. unfold revRookSquares, andn, a1Castle, h1Castle, a8Castle, h8Castle in H. cbv zeta in H.
+  destruct (N.testbit (castleMask q) i) eqn:Hq; [|reflexivity]. exfalso.
+  destruct (four_cases i Hi) as [-> | [-> | [-> | ->]]]; rewrite Hq in H; unfold homeR in H; cbn [N.eqb Pos.eqb] in H;
+    destruct (N.testbit (castleMask q) 0), (N.testbit (castleMask q) 1), (N.testbit (castleMask q) 2), (N.testbit (castleMask q) 3);
+    try discriminate;
+    repeat (rewrite N.ldiff_spec in H); rewrite ?bit_bits, ?N.eqb_refl in H;
+    repeat match type of H with context [?a =? ?b] => let v := eval vm_compute in (a =? b) in change (a =? b) with v in H end;
+    cbn [negb andb] in H; rewrite ?andb_false_r in H; try discriminate.
+Qed.
+
+Section Consistent.
+Variable zk : zkeys.
+Hypothesis EKZ : emptyKeysZero zk.
+Variable q : position.
+Hypothesis Cq : Consistent zk q.
+Hypothesis Hwf : WF q.
+Variable incl : bool.
+Variable um : unMove.
+Hypothesis Hin : In um (genMoves zk q incl).
+
+Let m := um_move um.
+Let ui := um_ui um.
+Let f := mfrom m.
+Let t := mto m.
+Let sqsQ := squares q.
+Let mp := nthP sqsQ t.
+Let wm := negb (whiteMove q).
+Let prev := unMakeMove zk q m ui.
+
+(** the class: no promotion, the piece on the to-square is not a pawn, and the move is not an un-castling *)
+Hypothesis Hpr : mpromote m = EMPTY.
+Hypothesis Hnp : isPawnPiece mp = false.
+Hypothesis Hnu : isKingPiece mp = true -> t <> f + 2 /\ t + 2 <> f.
+
+Lemma ep_none : epSquare q = (-1)%Z.
+Proof.
+  destruct (Z.eq_dec (epSquare q) (-1)) as [E|E]; [exact E|]. exfalso.
+  destruct (proj1 (genMoves_In zk q incl um) Hin) as (Hc & _). destruct (candidates_clock q incl um Hc) as (_ & Hraw).
+  fold m in Hraw. unfold revMoveList in Hraw. cbv zeta in Hraw.
+  replace (epSquare q =? -1)%Z with false in Hraw by (symmetry; apply Z.eqb_neq; exact E).
+  apply revAdd_to in Hraw. destruct Hraw as [[]|(Et & _)]. fold t in Et.
+  destruct (WF_parts q Hwf) as (_ & _ & _ & _ & Ha).
+  destruct (accepted_epShape _ Ha) as [H|(e & H1 & H2 & H3 & H4 & H5)]; cbn [abs sp_ep sp_white sp_board] in *; [contradiction|].
+  rewrite H1, N2Z.id in Et. fold sqsQ in H5.
+  assert (Hp : isPawnPiece mp = true).
+  { unfold mp. rewrite Et. unfold sqAdd. unfold sqY in H3.
+    destruct (whiteMove q); cbn [negb].
+    - replace (Z.to_N (Z.of_N e + -8)) with (e - 8) by (pose proof (N.div_mod e 8 ltac:(lia)); lia). rewrite H5. reflexivity.
+    - replace (Z.to_N (Z.of_N e + 8)) with (e + 8) by lia. rewrite H5. reflexivity. }
+  congruence.
+Qed.
+
+Lemma raw_shape : RawPiece q m.
+Proof.
+  destruct (proj1 (genMoves_In zk q incl um) Hin) as (Hc & _). destruct (candidates_clock q incl um Hc) as (_ & Hraw).
+  fold m in Hraw. rewrite (revMoveList_noep q ep_none) in Hraw.
+  exact (raw_piece_shape q (WF_BoardOK q Hwf) (king_exists q _ Hwf) m Hraw Hpr Hnp).
+Qed.
+
+(** common facts of the five classes *)
+Inductive PieceFacts : Prop :=
+| mkPF (X : piece) :
+    In X [WQUEEN; WROOK; WBISHOP; WKNIGHT; WKING] -> t < 64 -> mp = myPiece wm X -> f < 64 -> nthP sqsQ f = EMPTY ->
+    (X = WROOK -> N.testbit (revRookSquares wm q) t = true) ->
+    (X = WKING -> kingGuard q t = true /\ N.testbit (kingAttacks t) f = true) ->
+    (X = WKNIGHT -> N.testbit (knightAttacks t) f = true) -> PieceFacts.
+
+Lemma piece_facts : PieceFacts.
+Proof.
+  destruct raw_shape as [H|[(H & Hr)|[H|[H|[(H & Hg)|(k0 & kSq & Em & Hk0 & Hk2 & Hkk)]]]]].
+  - destruct H as (_ & A & B & C & D & _).
+    apply (mkPF WQUEEN (or_introl eq_refl) A B C D); intro EX; discriminate EX.
+  - destruct H as (_ & A & B & C & D & _).
+    apply (mkPF WROOK (or_intror (or_introl eq_refl)) A B C D); intro EX; try discriminate EX. exact Hr.
+  - destruct H as (_ & A & B & C & D & _).
+    apply (mkPF WBISHOP (or_intror (or_intror (or_introl eq_refl))) A B C D); intro EX; discriminate EX.
+  - destruct H as (_ & A & B & C & D & E).
+    apply (mkPF WKNIGHT (or_intror (or_intror (or_intror (or_introl eq_refl)))) A B C D); intro EX; try discriminate EX. exact E.
+  - destruct H as (_ & A & B & C & D & E).
+    apply (mkPF WKING (or_intror (or_intror (or_intror (or_intror (or_introl eq_refl))))) A B C D); intro EX; try discriminate EX.
+    split; [exact Hg | exact E].
+  - exfalso. assert (Ef : f = k0) by (unfold f; rewrite Em; reflexivity). assert (Et : t = kSq) by (unfold t; rewrite Em; reflexivity).
+    assert (HK : isKingPiece mp = true) by (unfold mp; rewrite Et; exact Hkk).
+    destruct (Hnu HK) as (A & B). rewrite Ef, Et in A, B. destruct Hk2; lia.
+Qed.
+
+Lemma own_X X : In X [WQUEEN; WROOK; WBISHOP; WKNIGHT; WKING] ->
+  has_color wm (myPiece wm X) = true /\ myPiece wm X <> EMPTY /\
+  (X <> WROOK -> forall i, myPiece wm X <> rookOf i) /\ (X <> WKING -> forall i, myPiece wm X <> kingOf i /\ isKingPiece (myPiece wm X) = false).
+Proof.
+  intro HX. cbn [In] in HX. generalize wm. intro b.
+  destruct HX as [<-|[<-|[<-|[<-|[<-|[]]]]]]; destruct b; cbn; repeat split; try discriminate; try congruence;
+    intros; unfold rookOf, kingOf; destruct (_ <? 2); try discriminate; try (split; [discriminate | reflexivity]).
+Qed.
+
+(** un-making and making again: the restored position satisfies the invariant and leads back to Q *)
+Theorem consistent_pieces : Consistent zk prev /\ abs (successor zk prev m) = abs q.
+Proof.
+  destruct piece_facts as [X HX Ht Hmp Hf Hfe Hrk Hkg _].
+  destruct (own_X X HX) as (Hcol & Hne & HnR & HnK).
+  assert (Hft : f <> t) by (intro E; unfold mp in Hmp; rewrite <- E, Hfe in Hmp; symmetry in Hmp; contradiction).
+  (* the undo information *)
+  destruct (proj1 (genMoves_In zk q incl um) Hin) as (Hc & _).
+  apply candidates_In in Hc. destruct Hc as (m' & _ & Hc). apply candidatesFor_In in Hc. cbv zeta in Hc.
+  destruct Hc as (p0 & castle & epFile & Hp0 & Hv & Hca & _ & _ & Eum).
+  assert (Em : m' = m) by (unfold m; rewrite Eum; reflexivity). subst m'.
+  assert (Emp : movingPieceOf q m = mp) by (unfold movingPieceOf; rewrite Hpr; reflexivity).
+  rewrite Emp in Hca, Eum.
+  set (captured := if negb (whiteMove q) then makeBlack p0 else p0) in *.
+  assert (Eui : ui = mkUndo captured (N.lor (getBaseCastleMask q m mp) castle)
+                             (epSquareOfFile (negb (whiteMove q)) epFile) 0%Z) by (unfold ui; rewrite Eum; reflexivity).
+  assert (Hcap : u_captured ui < 13).
+  { rewrite Eui. cbn [u_captured]. unfold captured. cbn [In] in Hp0.
+    destruct Hp0 as [<-|[<-|[<-|[<-|[<-|[<-|[<-|[]]]]]]]]; destruct (negb (whiteMove q)); cbv; reflexivity. }
+  assert (HnpQ : isPawnPiece (nthP (squares q) (mto m)) = false) by exact Hnp.
+  assert (Hking : isKingPiece mp = true -> (getKingDistance f t <= 1)%Z).
+  { intro HK. destruct (N.eq_dec X WKING) as [EX|EX].
+    - destruct (Hkg EX) as (_ & Hb). apply (kingStep_dist f t Hf Ht).
+      destruct (sym_facts f t Hf Ht) as (_ & Es & _). rewrite Es. exact Hb.
+    - destruct (HnK EX 0) as (_ & Hk'). rewrite Hmp in HK. congruence. }
+  assert (Hflag : forall i, i < 4 -> N.testbit (castleMask q) i = true -> t <> homeR i /\ t <> homeK i).
+  { intros i Hi Hq. destruct (rights_q q Hwf i Hi Hq) as (HK & HR). fold sqsQ in HK, HR. split; intro E.
+    - (* the rook of right i stands on t *)
+      assert (E2 : mp = rookOf i) by (unfold mp; rewrite E; exact HR).
+      destruct (N.eq_dec X WROOK) as [EX|EX].
+      + specialize (Hrk EX). rewrite E in Hrk. rewrite (rookSquares_flag q wm i Hi Hrk) in Hq. discriminate.
+      + apply (HnR EX i). rewrite <- Hmp. exact E2.
+    - assert (E2 : mp = kingOf i) by (unfold mp; rewrite E; exact HK).
+      destruct (N.eq_dec X WKING) as [EX|EX].
+      + destruct (Hkg EX) as (Hg & _). unfold kingGuard in Hg.
+        unfold a1Castle, h1Castle, a8Castle, h8Castle in Hg. apply negb_true_iff, orb_false_iff in Hg. destruct Hg as (G1' & G2').
+        destruct (four_cases i Hi) as [-> | [-> | [-> | ->]]].
+        * change (homeK 0) with E1 in E. rewrite E, N.eqb_refl in G1'. cbn [andb] in G1'. apply orb_false_iff in G1'. destruct G1'; congruence.
+        * change (homeK 1) with E1 in E. rewrite E, N.eqb_refl in G1'. cbn [andb] in G1'. apply orb_false_iff in G1'. destruct G1'; congruence.
+        * change (homeK 2) with E8 in E. rewrite E, N.eqb_refl in G2'. cbn [andb] in G2'. apply orb_false_iff in G2'. destruct G2'; congruence.
+        * change (homeK 3) with E8 in E. rewrite E, N.eqb_refl in G2'. cbn [andb] in G2'. apply orb_false_iff in G2'. destruct G2'; congruence.
+      + apply (proj1 (HnK EX i)). rewrite <- Hmp. exact E2. }
+  pose proof (prev_consistent zk q Cq m ui Hf Ht Hft Hcap Hpr HnpQ Hnu Hfe) as Cp.
+  split; [exact Cp|].
+  pose proof (remade_abs zk q Cq m ui Hf Ht Hft Hcap Hpr HnpQ Hnu Hfe) as Hr.
+  pose proof (makeMove_abs zk (unMakeMove zk q m ui) m Cp Hf) as Hm. rewrite Hr in Hm.
+  assert (Hcm : N.land (N.land (u_castleMask ui) (castleSqMask f)) (castleSqMask t) = castleMask q).
+  { rewrite Eui. cbn [u_castleMask].
+    apply (castle_back q Hwf m captured Hf Ht Hft Hfe); auto; try (fold sqsQ mp; rewrite Hmp; exact Hcol). }
+  fold f t in Hm. rewrite Hcm in Hm.
+  unfold successor, prev.
+  assert (Hep1 : epSquare (fst (makeMove zk (unMakeMove zk q m ui) m)) = (-1)%Z) by (apply (f_equal sp_ep) in Hm; exact Hm).
+  assert (Hfix : fixupEPSquare zk (fst (makeMove zk (unMakeMove zk q m ui) m)) = fst (makeMove zk (unMakeMove zk q m ui) m)).
+  { unfold fixupEPSquare. cbv zeta. rewrite Hep1. reflexivity. }
+  rewrite Hfix, Hm. unfold abs. rewrite ep_none. reflexivity.
+Qed.
+
+(** ** legality of knight and king un-moves by the FIDE rules *)
+Lemma captured_not_own p0 : In p0 [EMPTY; WKING; WQUEEN; WROOK; WBISHOP; WKNIGHT; WPAWN] ->
+  has_color wm (if wm then makeBlack p0 else p0) = false.
+Proof.
+  intro H. cbn [In] in H. generalize wm. intro b.
+  destruct H as [<-|[<-|[<-|[<-|[<-|[<-|[<-|[]]]]]]]]; destruct b; reflexivity.
+Qed.
+
+Theorem legal_step X (offs : list (Z * Z)) (K : kind) (atk : square -> N) :
+  (X = WKNIGHT /\ offs = knight_offsets /\ K = Knight /\ atk = knightAttacks) \/
+  (X = WKING /\ offs = king_offsets /\ K = King /\ atk = kingAttacks) ->
+  mp = myPiece wm X -> N.testbit (atk t) f = true -> f < 64 -> t < 64 -> nthP sqsQ f = EMPTY ->
+  legal_spec (abs prev) m.
+Proof.
+  intros HXK Hmp Hatk Hf Ht Hfe.
+  assert (Hspec : forall s, s < 64 -> atk s < 2 ^ 64 /\ forall t', t' < 64 -> N.testbit (atk s) t' = step_rel offs s t').
+  { destruct HXK as [(_ & -> & _ & ->)|(_ & -> & _ & ->)]; [apply knightAttacks_spec | apply kingAttacks_spec]. }
+  assert (Hsym : N.testbit (atk f) t = true).
+  { destruct (sym_facts f t Hf Ht) as (E1' & E2' & _). destruct HXK as [(_ & _ & _ & ->)|(_ & _ & _ & ->)]; congruence. }
+  assert (HmpK : mp = mk_piece wm K).
+  { rewrite Hmp. destruct HXK as [(-> & _ & -> & _)|(-> & _ & -> & _)]; generalize wm; intros []; reflexivity. }
+  assert (Hft : f <> t) by (intro E; unfold mp in HmpK; rewrite <- E, Hfe in HmpK; generalize dependent wm; intros [] ?; destruct K; discriminate).
+  assert (Hnk2 : isKingPiece mp = true -> t <> f + 2 /\ t + 2 <> f) by exact Hnu.
+  (* the undo information *)
+  destruct (proj1 (genMoves_In zk q incl um) Hin) as (Hc & _).
+  apply candidates_In in Hc. destruct Hc as (m' & _ & Hc). apply candidatesFor_In in Hc. cbv zeta in Hc.
+  destruct Hc as (p0 & castle & epFile & Hp0 & _ & _ & _ & _ & Eum).
+  assert (Em : m' = m) by (unfold m; rewrite Eum; reflexivity). subst m'.
+  set (captured := if negb (whiteMove q) then makeBlack p0 else p0) in *.
+  assert (Ecap : u_captured ui = captured) by (unfold ui; rewrite Eum; reflexivity).
+  assert (Hcap : u_captured ui < 13).
+  { rewrite Ecap. unfold captured. cbn [In] in Hp0.
+    destruct Hp0 as [<-|[<-|[<-|[<-|[<-|[<-|[<-|[]]]]]]]]; destruct (negb (whiteMove q)); cbv; reflexivity. }
+  assert (HnpQ : isPawnPiece (nthP (squares q) (mto m)) = false) by exact Hnp.
+  pose proof (prev_abs zk q Cq m ui Hf Ht Hft Hcap Hpr HnpQ Hnu Hfe) as Ha.
+  pose proof (prevBoard_f zk q Cq m ui Hf Ht Hft Hcap Hpr Hnu Hfe) as Bf. pose proof (prevBoard_t zk q Cq m ui Hf Ht Hft Hcap Hpr Hnu Hfe) as Bt.
+  pose proof (remade_board zk q Cq m ui Hf Ht Hft Hcap Hpr Hnu Hfe) as Brm.
+  fold f t sqsQ mp in Bf, Bt, Brm.
+  set (pb := prevBoard q m ui) in *.
+  assert (Hlen : length pb = 64%nat) by (unfold pb, prevBoard; rewrite !length_updN; apply (lenQ zk q Cq)).
+  assert (Hat : forall s, s < 64 -> at_ pb (zf s) (zr s) = nthP pb s).
+  { intros s Hs. destruct (coords_of_sq s Hs) as (Hob & Hi & _). unfold at_, nthP. rewrite Hob, Hi. reflexivity. }
+  destruct (coords_of_sq f Hf) as (Hobf & _ & Hsf). destruct (coords_of_sq t Ht) as (Hobt & _ & Hst).
+  assert (Hm : m = mkMove f t EMPTY) by (rewrite (move_eta m), Hpr; reflexivity).
+  unfold prev. unfold legal_spec. rewrite Ha. split.
+  - (* pseudo-legal *)
+    unfold pseudo_moves. apply in_app_iff. left. apply in_flat_map. exists (zf f, zr f). split; [apply all_coords_on_board; exact Hobf|].
+    cbn [fst snd].
+    apply (piece_moves_In _ (zf f) (zr f) m).
+    + cbn [sp_board]. rewrite (Hat f Hf), Bf, HmpK. generalize wm. intros []; destruct K; cbv; discriminate.
+    + cbn [sp_board sp_white]. fold wm. rewrite (Hat f Hf), Bf.
+      assert (Hstep : In m (step_moves pb wm (zf f) (zr f) offs)).
+      { apply step_moves_In. destruct (Hspec f Hf) as (_ & Hs). rewrite (Hs t Ht) in Hsym. unfold step_rel in Hsym.
+        apply existsb_exists in Hsym. destruct Hsym as (d & Hd & He). apply andb_true_iff in He. destruct He as (E1' & E2').
+        apply Z.eqb_eq in E1', E2'. exists d. split; [exact Hd|]. rewrite <- E1', <- E2'. split; [exact Hobt|].
+        split; [rewrite (Hat t Ht), Bt, Ecap; apply captured_not_own; exact Hp0|].
+        unfold mv. rewrite Hsf, Hst. exact Hm. }
+      destruct HXK as [(_ & -> & -> & _)|(_ & -> & -> & _)].
+      * right. left. split; [exact HmpK | exact Hstep].
+      * left. split; [exact HmpK | exact Hstep].
+  - (* the own king is not attacked afterwards: the board is that of Q *)
+    cbn [sp_white]. fold wm.
+    assert (Hb : sp_board (make_spec (mkSpos pb wm (u_castleMask ui) (u_epSquare ui)) m) = sqsQ).
+    { rewrite (make_spec_board _ m Hf Ht). cbv zeta. cbn [sp_board sp_white]. fold f t.
+      change (nth (N.to_nat f) pb EMPTY) with (nthP pb f). change (nth (N.to_nat t) pb EMPTY) with (nthP pb t). rewrite Bf, Hpr.
+      replace (is_piece wm Pawn mp) with false by (rewrite HmpK; generalize wm; intros []; destruct HXK as [(_ & _ & -> & _)|(_ & _ & -> & _)]; reflexivity).
+      cbn [andb]. change (EMPTY =? EMPTY) with true. cbv iota.
+      assert (Hk2 : (is_piece wm King mp && (zf t - zf f =? 2)%Z = false) /\ (is_piece wm King mp && (zf t - zf f =? -2)%Z = false)).
+      { destruct HXK as [(_ & _ & -> & _)|(_ & -> & -> & ->)].
+        - rewrite HmpK. split; generalize wm; intros []; reflexivity.
+        - destruct (Hspec f Hf) as (_ & Hs). rewrite (Hs t Ht) in Hsym. unfold step_rel in Hsym.
+          apply existsb_exists in Hsym. destruct Hsym as (d & Hd & He). apply andb_true_iff in He. destruct He as (E1' & _).
+          apply Z.eqb_eq in E1'.
+          assert (Hdx : (-1 <= fst d <= 1)%Z) by (cbn [In king_offsets] in Hd; destruct Hd as [<-|[<-|[<-|[<-|[<-|[<-|[<-|[<-|[]]]]]]]]]; cbn; lia).
+          split; apply andb_false_iff; right; apply Z.eqb_neq; lia. }
+      destruct Hk2 as (K1 & K2). rewrite K1, K2. exact Brm. }
+    rewrite Hb.
+    destruct (WF_parts q Hwf) as (_ & _ & _ & _ & Hacc). destruct (accepted_parts _ Hacc) as (_ & _ & _ & _ & Hck & _).
+    cbn [abs sp_board sp_white] in Hck. exact Hck.
+Qed.
+
+Lemma myPiece_inj X Y : In X [WQUEEN; WROOK; WBISHOP; WKNIGHT; WKING] -> In Y [WKNIGHT; WKING] ->
+  myPiece wm X = myPiece wm Y -> X = Y.
+Proof.
+  intros HX HY. cbn [In] in HX, HY. generalize wm. intros b.
+  destruct HX as [<-|[<-|[<-|[<-|[<-|[]]]]]]; destruct HY as [<-|[<-|[]]]; destruct b; cbn; intro E; try reflexivity; discriminate.
+Qed.
+
+Theorem legal_knight_king : (mp = myPiece wm WKNIGHT \/ mp = myPiece wm WKING) -> legal_spec (abs prev) m.
+Proof.
+  intro Hk. destruct piece_facts as [X HX Ht Hmp Hf Hfe _ Hkg Hkn].
+  destruct Hk as [E|E].
+  - assert (EX : X = WKNIGHT) by (apply (myPiece_inj X WKNIGHT HX); [cbn; tauto | congruence]).
+    rewrite EX in Hmp. exact (legal_step WKNIGHT knight_offsets Knight knightAttacks (or_introl (conj eq_refl (conj eq_refl (conj eq_refl eq_refl)))) Hmp (Hkn EX) Hf Ht Hfe).
+  - assert (EX : X = WKING) by (apply (myPiece_inj X WKING HX); [cbn; tauto | congruence]).
+    rewrite EX in Hmp. exact (legal_step WKING king_offsets King kingAttacks (or_intror (conj eq_refl (conj eq_refl (conj eq_refl eq_refl)))) Hmp (proj2 (Hkg EX)) Hf Ht Hfe).
+Qed.
+
+End Consistent.
